@@ -286,6 +286,12 @@ func strRepeatFunc(_ *ctx.EvalCtx, receiver object.Object, args ...object.Object
 	}
 
 	val := receiver.(*object.Str).Value
+
+	if val != "" && firstArg.Value > int64(maxBuiltStringLen/len(val)) {
+		msg := fmt.Sprintf(fail.ErrFuncResultTooLong, "repeat", object.STR_OBJ, maxBuiltStringLen)
+		return nil, errors.New(msg)
+	}
+
 	repeated := strings.Repeat(val, int(firstArg.Value))
 
 	return &object.Str{Value: repeated}, nil
